@@ -267,6 +267,12 @@ func c05Variants(h *hctx) []timedCase {
 					quiesce(200*time.Microsecond, time.Second)
 					if !g.returned() {
 						r.instant([]int{15, 0}, []int{9, 1})
+						// still parked: whatever it is going to do happens after this observation
+						r.mu.Lock()
+						if g.ret < 0 {
+							g.inv = tick()
+						}
+						r.mu.Unlock()
 						h.count("get_never_woke", 1)
 						if name == "cancel" || name == "closeb" || name == "deadline" {
 							// the model has no caller context: state the lost wake-up directly
